@@ -92,8 +92,15 @@ func c03Own(typ, elementWithAttrs, attr string) bool {
 		if c02CodeLoading(element, attr) {
 			return false
 		}
+		if pc := c03PolicyClass(element, attr); pc == "URLSet" {
+			// srcset-like attributes hold a set of URLs: a safehtml.URL is vetted candidate by candidate like a string
+			return false
+		}
 		return c03URLAttrs[attr]
 	case "TrustedResourceURL":
+		if pc := c03PolicyClass(element, attr); pc == "URLSet" {
+			return false
+		}
 		if c03PolicyClass(element, attr) == "URL" {
 			// the reviewed policy gives these attributes (form action, formaction, ...) to safehtml.URL alone: any
 			// other value, a TrustedResourceURL included, goes through the URL sanitizer like an untrusted string
@@ -206,6 +213,16 @@ func checkC03(r *core.Run) {
 	// link with rel values
 	for _, rel := range []string{"stylesheet", "icon", "alternate stylesheet", "preload", "modulepreload", "manifest"} {
 		jobs = append(jobs, cell{"link rel=\"" + rel + "\"", "href", "\"", ""})
+	}
+	// elements with an earlier attribute whose value an engine might interpret (script type, link as, ...)
+	for _, e := range []string{"script", "style", "iframe", "img", "a", "input", "object"} {
+		for _, pa := range []string{`type="module"`, `type="text/html"`, `type="text/template"`, `type="text/x-template"`, `type="application/json"`, `type="application/ld+json"`, `type="importmap"`, `type="text/plain"`, `type="image"`,
+			`language="vbscript"`, `as="script"`, `sandbox=""`, `nomodule`} {
+			jobs = append(jobs, cell{e + " " + pa, "", "", ""})
+			for _, at := range []string{"src", "href", "srcset", "style", "id", "title", "value", "data", "srcdoc"} {
+				jobs = append(jobs, cell{e + " " + pa, at, "\"", ""})
+			}
+		}
 	}
 	core.ParallelFor(len(jobs), func(i int) {
 		if r.Expired() {
